@@ -156,7 +156,8 @@ def oracle(rep, mesh, impl, A, U, rng, mi):
     al = np.array([rng.gauss(0, 1), rng.gauss(0, 1)])
     be = rng.gauss(0, 1)
     lin = mesh.sites @ al + be
-    exact = (em.directions @ al) / em.edge_lengths
+    dS = mesh.sites[em.edges[:, 1]] - mesh.sites[em.edges[:, 0]]          # from the site pairs, not from the stored edge geometry
+    exact = (dS @ al) / np.linalg.norm(dS, axis=1)
     if np.max(np.abs(G @ lin - exact)) > 1e-9 * (np.max(np.abs(exact)) + 1e-300) + 1e-9:
         rep.violation("gradient not exact on a linear function", case)
     rep.nontrivial(("mesh", n, E, ncomp))
@@ -250,6 +251,18 @@ def run(rep: common.Report, tier: str, seed: int, replay=None) -> int:
                                      max_edge_length=rng.choice([0.5, 0.8]),
                                      shape=rng.choice(["box", "ellipse", "union"]))
             mesh = dev.mesh
+        if mi % 3 == 2:
+            # history form: the mesh has been used before - smoothed copies were derived from it (twice); it must itself be
+            # untouched, and every identity is then checked on this used mesh
+            snap = np.array(mesh.sites, copy=True)
+            try:
+                mesh.smooth(2).smooth(1)
+                mesh.smooth(1)
+            except Exception:  # noqa: BLE001  (smoothing may legitimately produce a malformed mesh and refuse)
+                pass
+            if not np.array_equal(snap, mesh.sites):
+                rep.violation("Mesh.smooth() moved the sites of the mesh it was called on (it returns a new mesh)",
+                              {"mesh": mi, "max_shift": float(np.max(np.abs(snap - mesh.sites)))})
         with_fixed = (mi % 2 == 1)
         A, U, fixed, impl = build_case(rng, mesh, with_fixed)
         oracle(rep, mesh, impl, A, U, rng, mi)
